@@ -86,7 +86,7 @@ def gen_cases(tier, seed):
             mg = nx.configuration_model(degs, seed=r.randrange(10 ** 9))
             desc = {'n': mg.number_of_nodes(), 'edges': sorted([sorted(e) for e in mg.edges()]), 'labels': desc['labels'], 'multi': True}
         out.append({'kind': kind, 'graph': desc, 'tau': r.choice([0.4, 0.8, 1.5, 3.0]), 'gamma': r.choice([0.5, 1.0, 2.0]), 'rho': r.choice([0.01, 0.05, 0.2]),
-                    'p': r.choice([0.2, 0.45, 0.7, 0.95]), 'model_idx': j // len(kinds), 'seed': cs})
+                    'p': r.choice([0.2, 0.45, 0.7, 0.95]), 'model_idx': j // len(kinds), 'seed': cs, 'tmin': r.choice([0, 0, 1.5, -2])})
     return out
 
 
@@ -313,10 +313,10 @@ def run_recur(case, res):
     res['sample'] = {'kind': 'recur', 'graph': case['graph'], 'p': p, 'rho': rho}
 
 
-def _model_call(name, G, tau, gamma, rho, tmax, tcount):
+def _model_call(name, G, tau, gamma, rho, tmax, tcount, tmin=0):
     import EoN
     f = getattr(EoN, name)
-    return _quiet(f, G, tau, gamma, rho=rho, tmax=tmax, tcount=tcount)
+    return _quiet(f, G, tau, gamma, rho=rho, tmin=tmin, tmax=tmin + tmax, tcount=tcount)
 
 
 def run_tau0(case, res):
@@ -329,7 +329,7 @@ def run_tau0(case, res):
         models = TAU0_MODELS
     name = models[case['model_idx'] % len(models)]
     try:
-        out, bad = _model_call(name, G, 0.0, gamma, rho, 3.0, 7)
+        out, bad = _model_call(name, G, 0.0, gamma, rho, 3.0, 7, tmin=case.get('tmin', 0))
     except Exception as e:
         viol(res, '%s|tau0|exception:%s' % (name, simcase.exc_key(e)), {'err': repr(e)[:200]})
         return
@@ -361,8 +361,8 @@ def run_gamma0(case, res):
     pairs = SIS_SIR_PAIRS if small else [p for p in SIS_SIR_PAIRS if 'pair_based' not in p[0] and 'effective_degree' not in p[0] and 'heterogeneous_pairwise' not in p[0]]
     a, b = pairs[case['model_idx'] % len(pairs)]
     try:
-        oa, bad1 = _model_call(a, G, tau, 0.0, rho, 2.5, 7)
-        ob, bad2 = _model_call(b, G, tau, 0.0, rho, 2.5, 7)
+        oa, bad1 = _model_call(a, G, tau, 0.0, rho, 2.5, 7, tmin=case.get('tmin', 0))
+        ob, bad2 = _model_call(b, G, tau, 0.0, rho, 2.5, 7, tmin=case.get('tmin', 0))
     except Exception as e:
         viol(res, '%s_vs_%s|gamma0|exception:%s' % (a, b, simcase.exc_key(e)), {'err': repr(e)[:200]})
         return
